@@ -64,7 +64,8 @@ Inductive case :=
 | CParse (k : kind) (t : tables) (frags : list bytes) (calls : list callobs) (final : option (bytes * bool))
 | CInt16 (d : bytes) (r : option Z)          (* util.integer(bytes, 16) *)
 | CInt10 (d : bytes) (r : option Z)          (* util.integer(latin-1 text) *)
-| CHparse (d : bytes) (r : option hdrs).     (* Headers().parse(d) ; items in dict order *)
+| CHparse (d : bytes) (r : option hdrs)      (* Headers().parse(d) ; items in dict order *)
+| CQuiet (k : kind) (t : tables) (frags : list bytes) (q : bool).  (* implementation never selected LF mode nor raised the 411 peek *)
 
 Definition optz_eqb (a b : option Z) : bool :=
   match a, b with Some x, Some y => Z.eqb x y | None, None => true | _, _ => false end.
@@ -80,6 +81,7 @@ Definition check (c : case) : bool :=
       end
   | CInt16 d r => optz_eqb (py_int16_bytes d) r
   | CInt10 d r => optz_eqb (py_int10_text INT_MAX_STR_DIGITS d) r
+  | CQuiet k t frags q => Bool.eqb (quiet_run (callees_of t) k init frags) q
   | CHparse d r =>
       match hparse [] d, r with
       | Some h, Some h' => hdrs_eqb h h'
